@@ -12,11 +12,11 @@ RULE = ("Hypothesis byte-backed generator of histories for ring capacities 1, 2,
         "steps - trigger (through all three trigger functions, READ and TEST), bursts that overfill the ring, cat_is_unsolicited_buffer_full, "
         "cat_is_unsolicited_event_buffered (typed and untyped), cat_get_processed_command - on 2-5 event commands of four sorts (automatic response, scripted "
         "handler with multi-step return codes, handler that triggers further events, events that fail immediately: nothing readable / name does not fit; some event commands or their whole group disabled or only_test - triggers must not care), "
-        "concurrently with 0-3 command lines (possibly held, released on stall) and output back-pressure; the processed command is sampled after every step. "
+        "concurrently with 0-3 command lines (possibly held, released on stall; one trigger in six names a command that lines use, the held one included - for those only the queue bookkeeping is judged; one history in six ends inside a line and raises an event afterwards; numeric variables of unsupported width 3/5/8; disable flags of event commands flipped at generated steps) and output back-pressure; the processed command is sampled after every step. "
         "Oracle: QueueModel (bounded FIFO + in-progress slot) replayed over the trace: acceptance iff waiting < capacity, full-query agreement, start order = "
         "acceptance order, buffered/processed queries, every accepted event's handler invocations and units exactly once in order, model empty at quiescence. "
         "Non-trivial = more than 2 x capacity accepted events, at least one BUFFER_FULL and at least one immediately failing event; distinct by case hash.")
-ASSUMPTIONS = ["event handlers never return HOLD (DESIGN 4.6)", "event commands' variables are not written by command lines, so an event's text does not depend on timing",
+ASSUMPTIONS = ["event handlers never return HOLD (DESIGN 4.6)", "event commands' ('#...') variables are not written by command lines, so an event's text does not depend on timing; texts and handler calls of events raised on line commands are not compared",
                "event payloads start with '#', command payloads never do (harness-controlled alphabets), descriptions are not used on event commands"]
 TECHNIQUE = "Hypothesis model-based (stateful) testing: generated call histories judged post hoc against an abstract bounded-FIFO queue model, for each compile-time ring capacity"
 LEVEL_TEXT = ("Model-based testing over generated call histories (ring indices wrap many times) for every configured capacity; the abstract queue is replayed over the "
